@@ -1,5 +1,6 @@
 //! C03: Tiny v2 `read` / `write`: round trip, canonical (insertion-order independent) output, fixed point,
-//! one entry per recognised line, well-formed results, duplicate sibling keys are errors.
+//! one entry per recognised line, well-formed results, duplicate sibling keys are errors, the header's own section
+//! (comment of the mapping set, ignored property lines, refused shapes).
 use indexmap::IndexMap;
 use java_string::JavaStr;
 use duke::tree::class::ObjClassName;
@@ -25,6 +26,7 @@ fn cells(names: &[Option<String>]) -> String {
 /// the Tiny v2 text of a generated set, entries in generation order (not sorted)
 fn emit(g: &GMappings) -> Vec<String> {
 	let mut l = vec![format!("tiny\t2\t0{}", g.ns.iter().map(|n| format!("\t{n}")).collect::<String>())];
+	if let Some(d) = &g.doc { l.push(format!("\tc\t{}", esc(d))); }
 	for c in &g.classes {
 		l.push(format!("c{}", cells(&c.names)));
 		if let Some(d) = &c.doc { l.push(format!("\tc\t{}", esc(d))); }
@@ -172,10 +174,20 @@ fn hard_docs(g: &mut GMappings, r: &mut Rng, out: &mut Out) {
 	out.stats.hit("has:hard-docs");
 }
 
+/// comments on the mapping set itself: plain, several lines, characters that need escaping, the empty string
+const TOP_DOCS: &[&str] = &["top", "a comment on the whole mapping set", "top\nlevel", "three\nlines\n", "tab\there and \\ backslash", "cr at the end\r",
+	"cr\r\nlf \\n not a line feed \\", "", "", "\t", "\\", "\n", "\u{1f600} \\t\\r\\\\", "c\ttop", " \u{3000}"];
+
+fn top_doc(g: &mut GMappings, r: &mut Rng, out: &mut Out) {
+	let d = if r.chance(1, 4) { *r.pick(HARD_DOCS) } else { *r.pick(TOP_DOCS) };
+	out.stats.hit(if d.is_empty() { "topdoc:empty" } else if d.contains('\n') { "topdoc:multiline" }
+		else if d.contains(['\t', '\r', '\\']) { "topdoc:escapes" } else { "topdoc:plain" });
+	g.doc = Some(d.to_owned());
+}
+
 /// pushes the set outside the proved domain in one of the known ways
 fn spoil(g: &mut GMappings, r: &mut Rng, out: &mut Out) {
-	match r.below(4) {
-		0 => { g.doc = Some((*r.pick(&["top", "top\nlevel", ""])).to_owned()); out.stats.hit("spoil:toplevel-doc"); }
+	match r.range(1, 3) {
 		1 => {
 			let bad = ["a\tb", "a\nb", "a\rb", "a\r", "a.b", "a;b", "[a", "a//b", "/a", "a/", "<x>", "a b", "B\nc\tC\tD"];
 			if let Some(c) = g.classes.first_mut() {
@@ -206,7 +218,10 @@ fn mutate_text(lines: &mut Vec<String>, r: &mut Rng, out: &mut Out) {
 	if lines.is_empty() { return; }
 	let i = r.below(lines.len());
 	let body = if lines.len() > 1 { r.range(1, lines.len() - 1) } else { 0 };
-	let kind = r.below(16);
+	let kind = r.below(22);
+	// the end of the header section: the first line at indentation 0 after the header line
+	let hdr_end = (1..lines.len()).find(|&k| indent_of(&lines[k]) == 0).unwrap_or(lines.len());
+	let first_class = (1..lines.len()).find(|&k| lines[k].starts_with("c\t"));
 	let name = match kind {
 		0 => { lines[body].insert(0, '\t'); "indent-more" }
 		1 => { if lines[body].starts_with('\t') { lines[body].remove(0); } "indent-less" }
@@ -261,7 +276,50 @@ fn mutate_text(lines: &mut Vec<String>, r: &mut Rng, out: &mut Out) {
 		12 => { lines.swap(i, body); "swap-lines" }
 		13 => { lines.remove(body.min(lines.len() - 1)); "remove-line" }
 		14 => { lines[body].push('\r'); "trailing-cr" }
-		_ => { lines.insert(body, String::new()); "empty-line" }
+		15 => { lines.insert(body, String::new()); "empty-line" }
+		16 => {
+			// property lines of other kinds in the header section
+			for _ in 0..r.range(1, 3) {
+				let at = r.range(1, hdr_end);
+				lines.insert(at, (*r.pick(&["\tescaped-names", "\tmissing-lvt-indices", "\tx\ty\tz", "\t", "\tf\tI\ta\tb", "\tm\t()V\ta\tb", "\tp\t0\ta\tb",
+					"\tC\tupper", "\t c\tspace", "\tcc\tx", "\t#\tc", "\tprop\tc\tvalue"])).to_owned());
+			}
+			"header-property"
+		}
+		17 => {
+			let at = r.range(1, hdr_end);
+			lines.insert(at, (*r.pick(&["\tc\tsecond", "\tc\t", "\tc\tsecond\\nline"])).to_owned());
+			let have = lines[1..hdr_end + 1].iter().filter(|l| l.starts_with("\tc")).count();
+			if have < 2 && r.chance(3, 4) {
+				let at = r.range(1, hdr_end + 1);
+				lines.insert(at, "\tc\tanother".to_owned());
+			}
+			"header-two-comments"
+		}
+		18 => {
+			let at = r.range(1, hdr_end);
+			lines.insert(at, (*r.pick(&["\t\tc\tdeep", "\t\t\tc\tdeeper", "\t\tx", "\t\t"])).to_owned());
+			"header-deeper-line"
+		}
+		19 => {
+			// a header comment / property after the first class (there it belongs to the class), or at the end of the text
+			let at = match first_class { Some(k) if r.chance(3, 4) => k + 1, _ => lines.len() };
+			lines.insert(at, (*r.pick(&["\tc\tlate header comment", "\tescaped-names", "\tc\t"])).to_owned());
+			"header-line-after-class"
+		}
+		20 => {
+			// an ignored line at indentation 0, then an indented one
+			let at = r.range(1, lines.len());
+			lines.insert(at, (*r.pick(&["x\tfoo", "", "#", "C\tA\tB"])).to_owned());
+			lines.insert(at + 1, (*r.pick(&["\tc\torphan", "\tescaped-names", "\t\tc\tx"])).to_owned());
+			"orphan-indent"
+		}
+		_ => {
+			// malformed header comments: no cell, two cells
+			let at = r.range(1, hdr_end);
+			lines.insert(at, (*r.pick(&["\tc", "\tc\ta\tb", "\tc\t\t"])).to_owned());
+			"header-comment-cells"
+		}
 	};
 	out.stats.hit(&format!("malformed:{name}"));
 }
@@ -274,6 +332,7 @@ fn gen(r: &mut Rng, tier: Tier, out: &mut Out) {
 		let cfg = cfg_for(r, n);
 		let mut g = gen_mappings(r, &cfg);
 		if r.chance(1, 3) { hard_docs(&mut g, r, out); }
+		if r.chance(1, 3) { top_doc(&mut g, r, out); } else { out.stats.hit("topdoc:none"); }
 		if r.chance(1, 4) { whitespace_names(&mut g, r, out); }
 		let spoiled = r.chance(1, 7);
 		if spoiled { spoil(&mut g, r, out); }
@@ -315,6 +374,9 @@ fn gen(r: &mut Rng, tier: Tier, out: &mut Out) {
 			0 => out.op("oracle-read-counts", &[Sexp::nat(nn), Sexp::str(&text)]),
 			_ => out.op("oracle-read-wf", &[Sexp::nat(nn), Sexp::str(&text)]),
 		}
+		if g.doc.is_some() || r.chance(1, 4) { out.op("oracle-toplevel-doc", &[Sexp::nat(nn), Sexp::str(&text)]); }
+		// unknown property lines in the header section, one of them deleted again
+		if r.chance(1, 3) { ignored_case(&lines, n, r, out); }
 		// a name that is not UTF-8 (lone surrogate): `write` refuses it (it used to panic)
 		if r.chance(1, 12) {
 			if let Some(ms) = with_surrogate(&m, r) {
@@ -340,6 +402,15 @@ fn gen(r: &mut Rng, tier: Tier, out: &mut Out) {
 		out.op("tiny-read", &[Sexp::nat(n), Sexp::str(&text)]);
 		if r.chance(1, 2) { out.op("oracle-read-counts", &[Sexp::nat(n), Sexp::str(&text)]); }
 		if r.chance(1, 4) { out.op("oracle-read-wf", &[Sexp::nat(n), Sexp::str(&text)]); }
+		if r.chance(1, 3) { out.op("oracle-toplevel-doc", &[Sexp::nat(n), Sexp::str(&text)]); }
+		if r.chance(1, 2) { out.op("oracle-header-bad", &[Sexp::nat(n), Sexp::str(&text)]); }
+		if r.chance(1, 3) {
+			// the first ignored line at indentation 0 that is followed by an indented one (or any position)
+			let k = (1..lines.len().saturating_sub(1)).find(|&k| indent_of(&lines[k]) == 0 && !lines[k].starts_with("c\t") && lines[k] != "c" && indent_of(&lines[k + 1]) > 0);
+			let k = match k { Some(k) if r.chance(7, 8) => k - 1, _ => r.below(lines.len() + 1) };
+			out.op("oracle-orphan-indent", &[Sexp::nat(n), Sexp::str(&text), Sexp::nat(k)]);
+		}
+		if r.chance(1, 8) { ignored_case(&lines, n, r, out); }
 		if r.chance(1, 6) { dup_case(&lines, n, r, out); }
 	}
 	// stream 3: fixed edge texts
@@ -356,11 +427,21 @@ fn gen(r: &mut Rng, tier: Tier, out: &mut Out) {
 		"tiny\t2\t0\ta\tb\nc\tA\tB\n\tc\t\\\\n \\x \\t\\r\\n \\\\\\ end\\\n", "tiny\t2\t0\ta\tb\nc\tA\tB\n\tc\t\\\n", "tiny\t2\t0\ta\tb\nc\tA\tB\n\tc\t\\\\\\\n",
 		"tiny\t2\t0\ta\tb\nc\tA\\tB\tB\\n\n",
 		"tiny\t2\t0\ta\tb\nc\tA\t \nc\tA \t\u{3000}\nc\t \t\n\tf\tI\t\u{a0}\t \n\tf\tI\t\u{a0}\u{a0}\t\n\tm\t()V\t run\trun \n\t\tp\t0\t \t\u{2003}\n\t\tp\t 1\t\t\n",
-		"tiny\t2\t0\t a\tb \nc\tA\tB\n", "tiny\t2\t0\ta\t \nc\tA\tB\n"] {
+		"tiny\t2\t0\t a\tb \nc\tA\tB\n", "tiny\t2\t0\ta\t \nc\tA\tB\n",
+		// the header's own section
+		"tiny\t2\t0\ta\tb\n\tc\ttop\nc\tA\tB\n", "tiny\t2\t0\ta\tb\n\tc\t\n", "tiny\t2\t0\ta\tb\n\tc\ttop\\nlevel \\t \\\\ \\r\r\n", "tiny\t2\t0\ta\tb\n\tc",
+		"tiny\t2\t0\ta\tb\n\tescaped-names\n\tc\ttop\n\tx\ty\tz\nc\tA\tB\n", "tiny\t2\t0\ta\tb\n\tescaped-names\nc\tA\tB\n\tc\tclass doc\n",
+		"tiny\t2\t0\ta\tb\n\tc\tone\n\tc\ttwo\n", "tiny\t2\t0\ta\tb\n\tc\tone\n\tx\n\tc\ttwo\nc\tA\tB\n", "tiny\t2\t0\ta\tb\n\t\tc\tdeep\n", "tiny\t2\t0\ta\tb\n\tc\ttop\n\t\tc\tdeep\n",
+		"tiny\t2\t0\ta\tb\n\tx\n\t\ty\n", "tiny\t2\t0\ta\tb\nc\tA\tB\n\tc\tx\n\tescaped-names\n", "tiny\t2\t0\ta\tb\n\tc\ttop\nc\tA\tB\n\tc\tx\n\tc\ty\n",
+		"tiny\t2\t0\ta\tb\nx\n\tc\tlate\n", "tiny\t2\t0\ta\tb\n\n\tc\tafter an empty line\n", "tiny\t2\t0\ta\tb\nc\tA\tB\nzz\n\tescaped-names\n", "tiny\t2\t0\ta\tb\n\tc\ta\tb\n",
+		"tiny\t2\t0\ta\tb\n\tf\tI\tx\ty\n\tf\tI\tx\ty\n", "tiny\t2\t0\ta\tb\n\tm\t()V\tx\ty\n\tc\ttop\n", "tiny\t2\t0\ta\tb\r\n\tc\ttop\r\n\tescaped-names\r\n", "\ttiny\t2\t0\ta\tb\n\tc\ttop\n"] {
 		for n in 2..=3 {
 			out.op("tiny-read", &[Sexp::nat(n), Sexp::str(t)]);
 			out.op("oracle-read-counts", &[Sexp::nat(n), Sexp::str(t)]);
 			out.op("oracle-read-wf", &[Sexp::nat(n), Sexp::str(t)]);
+			out.op("oracle-toplevel-doc", &[Sexp::nat(n), Sexp::str(t)]);
+			out.op("oracle-header-bad", &[Sexp::nat(n), Sexp::str(t)]);
+			for k in 0..3 { out.op("oracle-orphan-indent", &[Sexp::nat(n), Sexp::str(t), Sexp::nat(k)]); }
 		}
 		out.stats.hit("edge-text");
 	}
@@ -382,6 +463,11 @@ fn gen(r: &mut Rng, tier: Tier, out: &mut Out) {
 		("tiny\t2\t0\ta\tb\nc\nc\n", 0, 0, 1),
 		("tiny\t2\t0\ta\tb\nc\tA\tB\n", 0, 0, 0),
 		("tiny\t2\t0\ta\tb\nc\tA\tB\n", 0, 0, 7),
+		// with a header section: positions count from the first line at indentation 0
+		("tiny\t2\t0\ta\tb\n\tc\ttop\n\tescaped-names\nc\tA\tB\nc\tA\tC\n", 0, 0, 1),
+		("tiny\t2\t0\ta\tb\n\tc\ttop\nc\tA\tB\n\tf\tI\tx\ty\n\tf\tI\tx\tz\n", 0, 1, 2),
+		("tiny\t2\t0\ta\tb\n\tf\tI\tx\ty\n\tf\tI\tx\ty\n", 0, 0, 1),
+		("tiny\t2\t0\ta\tb\n\tf\tI\tx\ty\n\tf\tI\tx\ty\nc\tA\tB\n", 0, 0, 1),
 	] {
 		for n in 2..=3 { out.op("oracle-dup", &[Sexp::nat(n), Sexp::str(t), Sexp::nat(m), Sexp::nat(i), Sexp::nat(j)]); }
 		out.stats.hit("edge-dup");
@@ -430,8 +516,9 @@ fn indent_of(l: &str) -> usize { l.chars().take_while(|c| *c == '\t').count() }
 /// copies one entry line (with other target names) to a later place and asks for the duplicate-key theorem there;
 /// some placements are deliberately outside the domain (another class / method in between, no copy at all)
 fn dup_case(lines: &[String], n: usize, r: &mut Rng, out: &mut Out) {
-	if lines.len() < 2 { return; }
-	let body: Vec<String> = lines[1..].to_vec();
+	let start = (1..lines.len()).find(|&k| indent_of(&lines[k]) == 0).unwrap_or(lines.len());
+	if lines.len() < start + 1 { return; }
+	let body: Vec<String> = lines[start..].to_vec();
 	let entry: Vec<usize> = (0..body.len()).filter(|&k| {
 		let t = body[k].trim_start_matches('\t');
 		(indent_of(&body[k]) == 0 && t.starts_with("c\t")) || (indent_of(&body[k]) == 1 && (t.starts_with("f\t") || t.starts_with("m\t")))
@@ -459,12 +546,38 @@ fn dup_case(lines: &[String], n: usize, r: &mut Rng, out: &mut Out) {
 	let no_copy = r.chance(1, 12);
 	if !no_copy { nb.insert(pos, copy); }
 	let m = (0..i).rev().find(|&k| indent_of(&nb[k]) == 1 && nb[k].trim_start_matches('\t').starts_with("m\t")).unwrap_or(0);
-	let mut text = lines[0].clone();
-	text.push('\n');
-	for l in &nb { text.push_str(l); text.push('\n'); }
+	let mut text = String::new();
+	for l in lines[..start].iter().chain(nb.iter()) { text.push_str(l); text.push('\n'); }
 	let j = if r.chance(1, 15) { r.below(nb.len() + 2) } else { pos };
 	out.stats.hit(&format!("dup:{}:{}", ["class", "member", "param"][ind.min(2)], if no_copy { "no-copy" } else { how }));
 	out.op("oracle-dup", &[Sexp::nat(n), Sexp::str(&text), Sexp::nat(m), Sexp::nat(i), Sexp::nat(j)]);
+}
+
+/// inserts unknown property lines into the header section and asks whether deleting one of them again changes the
+/// outcome (theorem `header_unknown_property_ignored_at`); some requests are deliberately outside the domain: the deleted
+/// line is the comment, stands in the body, or the second text is not the first one without that line
+fn ignored_case(lines: &[String], n: usize, r: &mut Rng, out: &mut Out) {
+	if lines.is_empty() { return; }
+	let mut l: Vec<String> = lines.to_vec();
+	let hdr_end = (1..l.len()).find(|&k| indent_of(&l[k]) == 0).unwrap_or(l.len());
+	let props = ["\tescaped-names", "\tmissing-lvt-indices", "\tx\ty\tz", "\t", "\tf\tI\ta\tb", "\tm\t()V\ta\tb", "\tC\tnot a comment", "\tcc", "\tprop\tc\tv"];
+	let mut end = hdr_end;
+	let mut at = 1;
+	for _ in 0..r.range(1, 3) { at = r.range(1, end); l.insert(at, (*r.pick(&props)).to_owned()); end += 1; }
+	let how = r.below(12);
+	let k = match how {
+		0 => r.range(1, l.len()),                 // any line
+		1 => end,                                 // the first body line (or past the end)
+		2 => (1..end).find(|&k| l[k].starts_with("\tc\t")).unwrap_or(at),   // the comment
+		_ => at,
+	};
+	let mut l2 = l.clone();
+	if k < l2.len() { l2.remove(k); }
+	if how == 3 && l2.len() > 1 { let x = r.range(1, l2.len() - 1); l2.remove(x); }   // something else is missing too
+	if how == 4 { l[at] = "\t\tdeeper".to_owned(); }
+	let text = |v: &[String]| v.iter().map(|x| format!("{x}\n")).collect::<String>();
+	out.stats.hit(["ignored:any-line", "ignored:first-body-line", "ignored:comment", "ignored:other-text", "ignored:deeper", "ignored:property"][how.min(5)]);
+	out.op("oracle-header-ignored", &[Sexp::nat(n), Sexp::str(&text(&l)), Sexp::str(&text(&l2)), Sexp::nat(k - 1)]);
 }
 
 fn small_set() -> GMappings {
@@ -505,7 +618,7 @@ fn wf<const N: usize>(m: &M<N>) -> bool {
 /// the proved domain of the round trip and of the fixed point (mirror of `Tiny.writable`); comments are arbitrary
 fn writable<const N: usize>(m: &M<N>) -> bool {
 	let ns: &[String; N] = (&m.info.namespaces).into();
-	N >= 2 && ns.iter().all(|s| !s.is_empty() && str_cell_ok(s)) && m.javadoc.is_none() && wf(m)
+	N >= 2 && ns.iter().all(|s| !s.is_empty() && str_cell_ok(s)) && wf(m)
 		&& m.classes.values().all(|c| names_ok(&c.info.names, ObjClassName::is_valid)
 			&& c.fields.values().all(|f| cell_ok(f.info.desc.as_inner()) && names_ok(&f.info.names, FieldName::is_valid))
 			&& c.methods.values().all(|me| cell_ok(me.info.desc.as_inner()) && names_ok(&me.info.names, MethodName::is_valid)
@@ -574,9 +687,11 @@ fn written_opt<const N: usize>(m: &M<N>) -> Option<String> { match write_text(m)
 
 // ---- the text seen as lines (own re-implementation of `BufRead::lines` + `TinyLine::new`, used by the oracles only)
 
+#[derive(PartialEq, Clone)]
 struct TL { indent: usize, first: String, fields: Vec<String> }
 
-fn body_lines(text: &str) -> Vec<TL> {
+/// all lines: the header line first
+fn all_lines(text: &str) -> Vec<TL> {
 	use std::io::BufRead;
 	let mut v = Vec::new();
 	for l in text.as_bytes().lines() {
@@ -586,8 +701,56 @@ fn body_lines(text: &str) -> Vec<TL> {
 		let first = it.next().unwrap_or_default();
 		v.push(TL { indent, first, fields: it.collect() });
 	}
-	if !v.is_empty() { v.remove(0); }
 	v
+}
+
+/// the lines after the header line (mirror of `(textLines t).tail`)
+fn tail_lines(text: &str) -> Vec<TL> { let mut v = all_lines(text); if !v.is_empty() { v.remove(0); } v }
+
+/// the header's own section (the lines before the first one at indentation 0) and the body (mirror of `headerPart` / `bodyPart`)
+fn split_header(tail: &[TL]) -> (&[TL], &[TL]) {
+	let k = tail.iter().position(|l| l.indent == 0).unwrap_or(tail.len());
+	tail.split_at(k)
+}
+
+fn body_lines(text: &str) -> Vec<TL> { let t = tail_lines(text); split_header(&t).1.to_vec() }
+
+/// own `unescape` for the oracle (the one of `tiny_v2.rs` is private)
+fn unesc(s: &str) -> String {
+	let mut out = String::new();
+	let mut it = s.chars().peekable();
+	while let Some(c) = it.next() {
+		if c != '\\' { out.push(c); continue; }
+		let rep = match it.peek() { Some('\\') => Some('\\'), Some('n') => Some('\n'), Some('r') => Some('\r'), Some('t') => Some('\t'), _ => None };
+		match rep { Some(x) => { it.next(); out.push(x); } None => out.push('\\') }
+	}
+	out
+}
+
+/// mirror of `Tiny.headerDocLines`
+fn header_doc_lines(tail: &[TL]) -> Vec<&TL> { split_header(tail).0.iter().filter(|l| l.first == "c").collect() }
+
+/// mirror of `Tiny.headerDoc`: the cell of the first comment line of the header section, unescaped
+fn header_doc(tail: &[TL]) -> Option<String> {
+	let l = header_doc_lines(tail).into_iter().next()?;
+	if l.fields.len() == 1 { Some(unesc(&l.fields[0])) } else { None }
+}
+
+/// mirror of `Tiny.headerBad`
+fn header_bad(tail: &[TL]) -> bool { split_header(tail).0.iter().any(|l| l.indent >= 2) || header_doc_lines(tail).len() >= 2 }
+
+/// mirror of `Tiny.ignoredAt`
+fn ignored_at(ls: &[TL], ls2: &[TL], k: usize) -> bool {
+	let Some(l) = ls.get(k) else { return false };
+	let mut erased = ls.to_vec();
+	erased.remove(k);
+	ls[..k].iter().all(|x| x.indent != 0) && l.indent == 1 && l.first != "c" && ls2 == erased.as_slice()
+}
+
+/// mirror of `Tiny.orphanAt`
+fn orphan_at(ls: &[TL], k: usize) -> bool {
+	let (Some(l0), Some(l)) = (ls.get(k), k.checked_add(1).and_then(|k1| ls.get(k1))) else { return false };
+	l0.indent == 0 && l0.first != "c" && l.indent >= 1
 }
 
 /// classes, fields, methods, parameters, comments the reader must produce for the body (mirror of `Tiny.lineKinds`)
@@ -657,20 +820,54 @@ fn exec(op: &str, args: &[Sexp]) -> Ans {
 				match quill::tiny_v2::read::<N, NsMarker>(t.as_bytes()) { Ok(m) => Ans::Ok(to_sexp(&m)), Err(_) => Ans::err() }
 			}, Ans::BadOp("n".into()))
 		}
-		("oracle-read-wf" | "oracle-read-counts", [n, t]) => {
+		("oracle-read-wf" | "oracle-read-counts" | "oracle-toplevel-doc", [n, t]) => {
 			let n = tr!(n.as_nat());
 			let t = tr!(t.as_string());
 			with_n!(n, N, {
 				let Ok(m) = quill::tiny_v2::read::<N, NsMarker>(t.as_bytes()) else { return Ans::out_of_domain() };
+				let tail = tail_lines(&t);
 				if op == "oracle-read-wf" {
 					if wf(&m) { Ans::pass() } else { Ans::fail("not_wf") }
+				} else if op == "oracle-toplevel-doc" {
+					if m.javadoc.as_ref().map(|j| j.0.clone()) != header_doc(&tail) { Ans::fail("doc") }
+					else if split_header(&tail).0.iter().all(|l| l.indent == 1) { Ans::pass() } else { Ans::fail("indent") }
 				} else {
-					let (e, a) = (expected_counts(&body_lines(&t)), actual_counts(&m));
+					let (e, a) = (expected_counts(split_header(&tail).1), actual_counts(&m));
 					match (0..5).find(|&k| e[k] != a[k]) {
-						None => Ans::pass(),
+						None => if usize::from(m.javadoc.is_some()) == header_doc_lines(&tail).len() { Ans::pass() } else { Ans::fail("topdoc") },
 						Some(k) => Ans::fail(["classes", "fields", "methods", "params", "docs"][k]),
 					}
 				}
+			}, Ans::BadOp("n".into()))
+		}
+		("oracle-header-bad", [n, t]) => {
+			let n = tr!(n.as_nat());
+			let t = tr!(t.as_string());
+			if !header_bad(&tail_lines(&t)) { return Ans::out_of_domain(); }
+			with_n!(n, N, {
+				match quill::tiny_v2::read::<N, NsMarker>(t.as_bytes()) { Err(_) => Ans::pass(), Ok(_) => Ans::fail("accepted") }
+			}, Ans::BadOp("n".into()))
+		}
+		("oracle-orphan-indent", [n, t, k]) => {
+			let n = tr!(n.as_nat());
+			let t = tr!(t.as_string());
+			let k = tr!(k.as_nat());
+			if !orphan_at(&tail_lines(&t), k) { return Ans::out_of_domain(); }
+			with_n!(n, N, {
+				match quill::tiny_v2::read::<N, NsMarker>(t.as_bytes()) { Err(_) => Ans::pass(), Ok(_) => Ans::fail("accepted") }
+			}, Ans::BadOp("n".into()))
+		}
+		("oracle-header-ignored", [n, t, t2, k]) => {
+			let n = tr!(n.as_nat());
+			let t = tr!(t.as_string());
+			let t2 = tr!(t2.as_string());
+			let k = tr!(k.as_nat());
+			let (a, b) = (all_lines(&t), all_lines(&t2));
+			if a.first() != b.first() || a.is_empty() || !ignored_at(&a[1..], &b[1..], k) { return Ans::out_of_domain(); }
+			with_n!(n, N, {
+				let x = quill::tiny_v2::read::<N, NsMarker>(t.as_bytes()).ok().map(|m| to_sexp(&m));
+				let y = quill::tiny_v2::read::<N, NsMarker>(t2.as_bytes()).ok().map(|m| to_sexp(&m));
+				if x == y { Ans::pass() } else { Ans::fail("differs") }
 			}, Ans::BadOp("n".into()))
 		}
 		("oracle-dup", [n, t, m, i, j]) => {
